@@ -545,27 +545,27 @@ impl KotoVm {
             }
             BinaryOp::AddAssign => {
                 self.run_add_assign(lhs_register, rhs_register)?;
-                self.set_register(result_register, self.clone_register(lhs_register));
+                self.copy_assign_op_result(old_frame_count, result_register, lhs_register);
             }
             BinaryOp::SubtractAssign => {
                 self.run_subtract_assign(lhs_register, rhs_register)?;
-                self.set_register(result_register, self.clone_register(lhs_register));
+                self.copy_assign_op_result(old_frame_count, result_register, lhs_register);
             }
             BinaryOp::MultiplyAssign => {
                 self.run_multiply_assign(lhs_register, rhs_register)?;
-                self.set_register(result_register, self.clone_register(lhs_register));
+                self.copy_assign_op_result(old_frame_count, result_register, lhs_register);
             }
             BinaryOp::DivideAssign => {
                 self.run_divide_assign(lhs_register, rhs_register)?;
-                self.set_register(result_register, self.clone_register(lhs_register));
+                self.copy_assign_op_result(old_frame_count, result_register, lhs_register);
             }
             BinaryOp::RemainderAssign => {
                 self.run_remainder_assign(lhs_register, rhs_register)?;
-                self.set_register(result_register, self.clone_register(lhs_register));
+                self.copy_assign_op_result(old_frame_count, result_register, lhs_register);
             }
             BinaryOp::PowerAssign => {
                 self.run_power_assign(lhs_register, rhs_register)?;
-                self.set_register(result_register, self.clone_register(lhs_register));
+                self.copy_assign_op_result(old_frame_count, result_register, lhs_register);
             }
             BinaryOp::Less => self.run_less(result_register, lhs_register, rhs_register)?,
             BinaryOp::LessOrEqual => {
@@ -655,6 +655,16 @@ impl KotoVm {
         }
 
         self.get_overridden_op_result(old_frame_count, result_register)
+    }
+
+    // Copies the result of a native compound assignment into the result register
+    //
+    // If an overridden operator in Koto has been called then the frame's registers aren't
+    // accessible, and the result will be provided by the call (see `get_overridden_op_result`).
+    fn copy_assign_op_result(&mut self, old_frame_count: usize, result_register: u8, lhs: u8) {
+        if self.call_stack.len() == old_frame_count {
+            self.set_register(result_register, self.clone_register(lhs));
+        }
     }
 
     fn get_overridden_op_result(
